@@ -55,19 +55,58 @@ func genTTL(r *vu.Rng) uint32 {
 	}
 }
 
+// genPrior: what a reused header may hold before SetEDNS0 is called on it.
+func genPrior(r *vu.Rng) string {
+	var ttl uint32
+	switch r.Intn(8) {
+	case 0:
+		ttl = 0
+	case 1:
+		ttl = []uint32{60, 300, 3600, 32767, 32768, 86400, 604800, 2147483647, 0xffffffff, 0x00ff8000, 0x00010000}[r.Intn(11)]
+	case 2:
+		// an earlier OPT header (any ext, DO set or not, maybe a non-zero version / Z bits)
+		ttl = uint32(r.Intn(256))<<24 | uint32(r.Intn(2))<<15
+		if r.Chance(1, 3) {
+			ttl |= uint32(r.Intn(256))<<16 | uint32(r.Intn(1<<15))
+		}
+	case 3:
+		ttl = 1 << uint(r.Intn(32))
+	default:
+		ttl = genTTL(r)
+	}
+	typ := []int{41, 1, 28, 16, r.Intn(65536)}[r.Intn(5)]
+	cls := []int{1, 0, 1232, 65535, r.Intn(65536)}[r.Intn(5)]
+	return fmt.Sprintf("hdr %d %d %d", typ, cls, ttl)
+}
+
 func gen(r *vu.Rng, i int) []string {
 	if i < 8192 {
+		// every (ext, do) pair: on the fresh header, then on a dirty one, then a history of calls on
+		// the same header with DO flipped and other RCodes in between
 		ext, do := i%4096, i/4096
 		ops := []string{
 			fmt.Sprintf("edns 0 %d %d", ext, do),
-			fmt.Sprintf("edns 65535 %d %d", ext, do),
-		}
-		for k := 0; k < 6; k++ {
-			ops = append(ops, fmt.Sprintf("edns %d %d %d", genLen(r), ext, do))
+			fmt.Sprintf("edns 65535 %d %d", ext, 1-do),
+			fmt.Sprintf("edns %d %d %d", genLen(r), ext, do),
+			genPrior(r),
+			fmt.Sprintf("edns %d %d %d", genLen(r), ext, do),
+			fmt.Sprintf("edns %d %d %d", genLen(r), r.Intn(4096), r.Intn(2)),
+			fmt.Sprintf("edns %d %d %d", genLen(r), ext, 1-do),
+			fmt.Sprintf("edns %d %d %d", genLen(r), ext, do),
 		}
 		return ops
 	}
-	switch r.Intn(6) {
+	switch r.Intn(8) {
+	case 6, 7:
+		// history on one header: prior contents, then several calls
+		ops := []string{genPrior(r)}
+		for k, n := 0, 1+r.Intn(4); k < n; k++ {
+			if r.Chance(1, 6) {
+				ops = append(ops, genPrior(r))
+			}
+			ops = append(ops, fmt.Sprintf("edns %d %d %d", genLen(r), r.Intn(4096), r.Intn(2)))
+		}
+		return ops
 	case 0:
 		// outside the representable range: uint16 ext >= 4096, int len >= 65536
 		ext := r.Intn(65536)
@@ -89,10 +128,22 @@ func gen(r *vu.Rng, i int) []string {
 	}
 }
 
+var dirtyName = dnsmessage.MustNewName("reused.example.")
+
 func exec(ops []string, o *vu.Out) {
+	var h dnsmessage.ResourceHeader // the one header of this case
 	for _, op := range ops {
 		t := strings.Fields(op)
 		switch {
+		case len(t) == 4 && t[0] == "hdr":
+			typ, cls, ttl := vu.Atoi(t[1]), vu.Atoi(t[2]), vu.Atou64(t[3])
+			if typ < 0 || typ > 65535 || cls < 0 || cls > 65535 || ttl > 0xffffffff {
+				o.Op(op, "bad-op")
+				continue
+			}
+			o.Stat("op:hdr")
+			h = dnsmessage.ResourceHeader{Name: dirtyName, Type: dnsmessage.Type(typ), Class: dnsmessage.Class(cls), TTL: uint32(ttl), Length: 7}
+			o.Op(op, "ok")
 		case len(t) == 4 && t[0] == "edns":
 			l, ext, do := vu.Atoi64(t[1]), vu.Atoi(t[2]), vu.Atoi(t[3])
 			if l < 0 || ext < 0 || ext > 65535 || do < 0 || do > 1 {
@@ -100,12 +151,18 @@ func exec(ops []string, o *vu.Out) {
 				continue
 			}
 			o.Op(op, vu.Catch(func() string {
-				var h dnsmessage.ResourceHeader
+				prior := h
+				if prior.TTL != 0 || prior.Class != 0 || prior.Type != 0 {
+					o.Stat("edns:on-reused-header")
+				} else {
+					o.Stat("edns:on-fresh-header")
+				}
 				if err := h.SetEDNS0(int(l), dnsmessage.RCode(ext), do == 1); err != nil {
 					return "err"
 				}
 				xr := h.ExtendedRCode(dnsmessage.RCode(ext & 0xf))
 				da := h.DNSSECAllowed()
+				oracleReuse(int(l), ext, do == 1, &prior, &h, o)
 				oracle(int(l), ext, do == 1, &h, o)
 				return fmt.Sprintf("ok %d %d %d %d %d", h.Type, h.Class, h.TTL, xr, b2i(da))
 			}))
@@ -151,9 +208,36 @@ func exec(ops []string, o *vu.Out) {
 	}
 }
 
-// checkOne states C38 on the implementation for one (len, ext, do) in the representable range.
+// oracleReuse: SetEDNS0 configures the header; what the header held before must not matter.
+// The expectation is computed from the RFC 6891 layout, not from the implementation.
+func oracleReuse(l, ext int, do bool, prior, h *dnsmessage.ResourceHeader, o *vu.Out) {
+	wantTTL := uint32(ext>>4&0xff) << 24
+	if do {
+		wantTTL |= 0x8000
+	}
+	where := fmt.Sprintf("SetEDNS0(%d,%d,%v) on a header with prior Type=%d Class=%d TTL=%d", l, ext, do, prior.Type, prior.Class, prior.TTL)
+	if h.TTL != wantTTL {
+		o.Fail("", fmt.Sprintf("%s: TTL=%#x want %#x; DNSSECAllowed=%v ExtendedRCode(%d)=%d", where, h.TTL, wantTTL,
+			h.DNSSECAllowed(), ext&0xf, h.ExtendedRCode(dnsmessage.RCode(ext&0xf))))
+	}
+	if h.DNSSECAllowed() != do {
+		o.Fail("", fmt.Sprintf("%s: DNSSECAllowed=%v", where, h.DNSSECAllowed()))
+	}
+	if ext < 4096 && int(h.ExtendedRCode(dnsmessage.RCode(ext&0xf))) != ext {
+		o.Fail("", fmt.Sprintf("%s: ExtendedRCode=%d", where, h.ExtendedRCode(dnsmessage.RCode(ext&0xf))))
+	}
+	if h.Type != dnsmessage.TypeOPT || h.Class != dnsmessage.Class(l) || h.Name.Length != 1 || h.Name.Data[0] != '.' {
+		o.Fail("", fmt.Sprintf("%s: Type=%v Class=%d Name=%q", where, h.Type, h.Class, h.Name.String()))
+	}
+}
+
+// checkOne states C38 on the implementation for one (len, ext, do) in the representable range,
+// on a header whose previous contents vary with len (fresh for len 0, dirty otherwise).
 func checkOne(l, ext int, do bool) string {
-	var h dnsmessage.ResourceHeader
+	h := dnsmessage.ResourceHeader{Type: dnsmessage.Type(l), Class: dnsmessage.Class(^l), TTL: uint32(l) * 0x9e3779b1}
+	if l%2 == 1 {
+		h.Name = dirtyName
+	}
 	if err := h.SetEDNS0(l, dnsmessage.RCode(ext), do); err != nil {
 		return "SetEDNS0 returned an error"
 	}
@@ -168,6 +252,9 @@ func checkOne(l, ext int, do bool) string {
 	}
 	if h.Type != dnsmessage.TypeOPT {
 		return fmt.Sprintf("Type=%v", h.Type)
+	}
+	if h.Name.Length != 1 || h.Name.Data[0] != '.' {
+		return fmt.Sprintf("Name=%q", h.Name.String())
 	}
 	return ""
 }
@@ -185,7 +272,7 @@ func oracle(l, ext int, do bool, h *dnsmessage.ResourceHeader, o *vu.Out) {
 	}
 	o.Stat("edns:representable")
 	if msg := checkOne(l, ext, do); msg != "" {
-		o.Fail("", fmt.Sprintf("len=%d ext=%d do=%v: %s", l, ext, do, msg))
+		o.Fail("", fmt.Sprintf("len=%d ext=%d do=%v on a header with prior TTL=%d: %s", l, ext, do, uint32(l)*0x9e3779b1, msg))
 	}
 	{
 		key := ext<<1 | b2i(do)
@@ -194,7 +281,7 @@ func oracle(l, ext int, do bool, h *dnsmessage.ResourceHeader, o *vu.Out) {
 			o.Stat("edns:full-length-sweeps")
 			for ll := 0; ll < 65536; ll++ {
 				if msg := checkOne(ll, ext, do); msg != "" {
-					o.Fail("", fmt.Sprintf("len=%d ext=%d do=%v: %s", ll, ext, do, msg))
+					o.Fail("", fmt.Sprintf("len=%d ext=%d do=%v on a header with prior TTL=%d: %s", ll, ext, do, uint32(ll)*0x9e3779b1, msg))
 					break
 				}
 			}
